@@ -380,6 +380,11 @@ class Param():
         [group, name] = complete_name.split('.')
         return self.values[group][name]
 
+    @staticmethod
+    def _is_reply_for(pk, element):
+        """Check that a misc reply is about this element, other queries can be pending at the same time"""
+        return struct.unpack('<H', pk.data[1:3])[0] == element.ident
+
     def get_default_value(self, complete_name, callback):
         """
         Get the default value of the specified parameter.
@@ -392,7 +397,8 @@ class Param():
         element = self.toc.get_element_by_complete_name(complete_name)
 
         def new_packet_cb(pk):
-            if pk.channel == MISC_CHANNEL and pk.data[0] == MISC_GET_DEFAULT_VALUE:
+            if pk.channel == MISC_CHANNEL and pk.data[0] == MISC_GET_DEFAULT_VALUE and \
+                    self._is_reply_for(pk, element):
                 if pk.data[3] == errno.ENOENT:
                     callback(complete_name, None)
                     self.cf.remove_port_callback(CRTPPort.PARAM, new_packet_cb)
@@ -423,7 +429,8 @@ class Param():
             raise AttributeError(f"Param '{complete_name}' is not persistent")
 
         def new_packet_cb(pk):
-            if pk.channel == MISC_CHANNEL and pk.data[0] == MISC_PERSISTENT_CLEAR:
+            if pk.channel == MISC_CHANNEL and pk.data[0] == MISC_PERSISTENT_CLEAR and \
+                    self._is_reply_for(pk, element):
                 callback(complete_name, pk.data[3] == 0)
                 self.cf.remove_port_callback(CRTPPort.PARAM, new_packet_cb)
 
@@ -452,7 +459,8 @@ class Param():
             raise AttributeError(f"Param '{complete_name}' is not persistent")
 
         def new_packet_cb(pk):
-            if pk.channel == MISC_CHANNEL and pk.data[0] == MISC_PERSISTENT_STORE:
+            if pk.channel == MISC_CHANNEL and pk.data[0] == MISC_PERSISTENT_STORE and \
+                    self._is_reply_for(pk, element):
                 callback(complete_name, pk.data[3] == 0)
                 self.cf.remove_port_callback(CRTPPort.PARAM, new_packet_cb)
 
@@ -486,7 +494,8 @@ class Param():
             raise AttributeError(f"Param '{complete_name}' is not persistent")
 
         def new_packet_cb(pk):
-            if pk.channel == MISC_CHANNEL and pk.data[0] == MISC_PERSISTENT_GET_STATE:
+            if pk.channel == MISC_CHANNEL and pk.data[0] == MISC_PERSISTENT_GET_STATE and \
+                    self._is_reply_for(pk, element):
                 if pk.data[3] == errno.ENOENT:
                     callback(complete_name, None)
                     self.cf.remove_port_callback(CRTPPort.PARAM, new_packet_cb)
